@@ -96,6 +96,17 @@ func runC17(c *Ctx) {
 			}
 		}
 	}
+	// an ECDSA private key given by its scalar alone (public coordinates never filled in): still an ECDSA key;
+	// public keys whose Curve value is of another Go type than the standard library's own curve objects
+	// (a wrapper, also one around P-224): crypto/ecdh supports none of them, so no verifier
+	{
+		k := gen.ECKey(elliptic.P256(), r)
+		keys = append(keys, c17key{name: "ecdsa-P-256-private-scalar-only", signer: &ecdsa.PrivateKey{PublicKey: ecdsa.PublicKey{Curve: elliptic.P256()}, D: k.D}, family: "ecdsa"})
+		for _, cv := range []elliptic.Curve{elliptic.P224(), elliptic.P256(), elliptic.P521()} {
+			kk := gen.ECKey(cv, r)
+			keys = append(keys, c17key{name: "ecdsa-" + cv.Params().Name + "-wrapped-curve-type", pub: &ecdsa.PublicKey{Curve: wrappedCurve{cv}, X: kk.X, Y: kk.Y}, family: "ecdsa", ecdhOK: false})
+		}
+	}
 	ed := gen.EdKey(r)
 	keys = append(keys,
 		c17key{name: "ed25519", signer: ed, pub: ed.Public(), family: "ed25519"},
